@@ -4,7 +4,7 @@ from common import *  # noqa: F401,F403
 RULE = ("GeneratorKnotVector.bezier/integer/uniform/random/weight for degree 0..6, npts up to 60 (quick) / 400 (thorough), cls in "
         "{int, float, Fraction}; shift / scale / normalize on random valid vectors (Fraction and float); basis-function and curve "
         "invariance under u -> s*u + a.  Non-trivial: npts > degree + 1; distinct = distinct (generator, arguments)."
-        " Also: one KnotVector object inspected and evaluated before in-place shift/scale/normalize/convert.")
+        " Also: one KnotVector object inspected and evaluated before in-place shift/scale/normalize/convert; far exact translations (1e6..1e12).")
 EXPLANATION = ("L2: generator output vs the model (exact for Fraction/int, 1e-12 for float with the interval ends compared exactly); L3: degree, "
                "npts, simple interior knots, spacing, exact [0,1] limits, preserved multiplicities and the affine-invariance identity evaluated "
                "exactly on the real objects.")
@@ -196,3 +196,9 @@ def run(ctx):
     for i in range(budget(ctx, 60, 800)):
         U = rand_kv(rng, bigknots=(rng.random() < 0.1))
         run_case(ctx, ser(dict(kind="affine", U=U, a=rand_rat(rng), s=F(rng.randint(1, 9), rng.randint(1, 5)), rep=rng.choice(["fraction", "fraction", "float"]))))
+        if i % 4 == 1:
+            # far translations of exact vectors (parameters like time stamps): distinctness of knots must not depend on their magnitude
+            big = rng.choice([-1, 1]) * rng.choice([1500000, 10**6, 10**9, 10**12]) + rng.randint(0, 9)
+            run_case(ctx, ser(dict(kind="affine", U=U, a=F(big), s=F(rng.randint(1, 3)), rep="fraction")))
+            rec_ = ctx["rec"]
+            rec_.count("affine", "far-translation")
